@@ -393,6 +393,11 @@ pub fn acct_path(label: &str) -> String {
 
 pub fn replay(payload: &Value) -> i32 {
 	std::env::set_var("GWV_SHOW_PANICS", "1");
+	if payload["kind"] == "same-instance" {
+		let (n, p) = same_instance_cases(&scratch_root());
+		println!("{} same-instance cases, problems: {:?}", n, p.iter().map(|x| (&x.0, &x.1)).collect::<Vec<_>>());
+		return if p.is_empty() { 0 } else { 1 };
+	}
 	let path: Vec<Op> = serde_json::from_value(payload["path"].clone()).unwrap();
 	let m = M { with_crashes: true };
 	match run_path(&m, &format!("{}/c15-replay", scratch_root()), &path) {
@@ -405,6 +410,69 @@ pub fn replay(payload: &Value) -> i32 {
 			2
 		}
 	}
+}
+
+/// One wallet instance that stays open (the BFS reopens every handle between transitions, so state
+/// an instance keeps in memory never survives a step there): it derives keys, a second instance of
+/// the same seed puts outputs with higher indices on chain, the first instance scans and derives
+/// again. For every order of {receive, build_output, coinbase} as the key-deriving calls.
+fn same_instance_cases(root: &str) -> (u64, Vec<(String, String, Value)>) {
+	let mut problems = vec![];
+	let mut n = 0u64;
+	let derivers = ["receive", "build_output", "coinbase"];
+	for first in derivers.iter() {
+		for second in derivers.iter() {
+			n += 1;
+			let dir = format!("{}/c15-same-{}-{}", root, first, second);
+			let mut w = World::create(&dir, &[("A", "A"), ("B", "B"), ("M", "M")]);
+			w.mine_n("A", 2);
+			w.mine_n("B", 3);
+			w.mine_n("M", 3);
+			w.w("A").refresh().unwrap();
+			w.w("B").refresh().unwrap();
+			let derive = |w: &World, how: &str| -> Option<String> {
+				let a = w.w("A");
+				let before: BTreeSet<String> = a.outputs().iter().map(|o| o.key_id.to_bip_32_string()).collect();
+				match how {
+					"receive" => {
+						let b = w.w("B");
+						let s = b.init_send(default_args(G)).and_then(|s| b.lock(&s).map(|_| s)).ok()?;
+						a.receive(&s, None).ok()?;
+						a.outputs().iter().map(|o| o.key_id.to_bip_32_string()).find(|k| !before.contains(k))
+					}
+					"build_output" => a.with(|x| owner::build_output(x, None, OutputFeatures::Plain, 5 * G)).ok().map(|o| o.key_id.to_bip_32_string()),
+					_ => {
+						let bf = BlockFees { fees: 0, key_id: None, height: w.node.height() + 1 };
+						a.with(|x| foreign::build_coinbase(x, None, &bf, false)).ok().and_then(|c| c.key_id).map(|k| k.to_bip_32_string())
+					}
+				}
+			};
+			let k1 = derive(&w, first);
+			// a second instance of the same seed (restored elsewhere) earns two rewards
+			w.add_wallet("A2", "A");
+			w.w("A2").scan(Some(1), false).unwrap();
+			w.mine_n("A2", 2);
+			w.mine_n("M", 3);
+			// the first instance, still open, scans and derives again
+			w.w("A").scan(Some(1), false).unwrap();
+			let k2 = derive(&w, second);
+			let on_chain: Vec<String> = chain_owned(&w.node, "A").iter().map(|x| x.key_id.to_bip_32_string()).collect();
+			if let Some(k2) = k2.as_ref() {
+				let idx = |p: &str| p.rsplit('/').next().and_then(|x| x.parse::<u32>().ok()).unwrap_or(0);
+				let max_chain = on_chain.iter().filter(|p| p.starts_with("m/0/0/")).map(|p| idx(p)).max().unwrap_or(0);
+				if on_chain.contains(k2) || Some(k2) == k1.as_ref() || idx(k2) <= max_chain {
+					problems.push((
+						"same-instance/next-path-not-beyond-chain".to_owned(),
+						format!("a wallet instance derived {:?} ({}), scanned after another instance of its seed had put outputs up to index {} on chain, and then derived {} ({})", k1, first, max_chain, k2, second),
+						json!({"kind": "same-instance", "first": first, "second": second}),
+					));
+				}
+			}
+			w.close();
+			let _ = std::fs::remove_dir_all(&dir);
+		}
+	}
+	(n, problems)
 }
 
 pub fn run(_args: &[String]) -> i32 {
@@ -437,6 +505,11 @@ pub fn run(_args: &[String]) -> i32 {
 		}
 		samples.extend(e.sample_paths.iter().take(2).cloned());
 	}
+	let (n_same, same_problems) = same_instance_cases(&scratch_root());
+	for (k, what, payload) in same_problems {
+		rep.add_finding(Finding { key: format!("C15/{}", k), what, replay: payload });
+	}
+	rep.cov("same_instance_cases", json!(n_same));
 	rep.cov("states", json!(states));
 	rep.cov("transitions", json!(transitions));
 	rep.cov("traces_validated_against_impl", json!(transitions));
